@@ -23,6 +23,15 @@ CHECKS["C02"] = ("bounded-exhaustive enumeration of values x counts 0..255 x car
 CHECKS["C03"] = ("bounded-exhaustive enumeration of AX/DX:AX x operand (bytes exhaustive, words on boundary lattices + per-divisor overflow boundaries) and of AX x AF x CF for the adjusts, on the real pipeline, plus end-to-end divide-error programs through the real CLI binary",
     "All AL x operand pairs x AH set for byte MUL/IMUL/DIV/IDIV, word lattice cubes and, for each divisor, the dividends around the quotient-overflow boundary, all 2^18 (AX,AF,CF) states for the 8 adjust instructions, every operand form including the implicit registers; outcome (NEXT vs INT 0), AX/DX, CF/OF and the frame are compared with the reference; 8 CLI programs check the divide-error message, line and termination.",
     "DESIGN.md section 6 C03")
+CHECKS["C04"] = ("bounded-exhaustive enumeration of address forms x overrides x consumers x register/segment lattices on the real pipeline with address-exact memory markers and a whole-memory diff",
+    "Every address form of syntax.md (8 displacements incl. negative/wrapping) x 5 segment choices x both widths x 12 consumer instructions x base/index lattice x 6 segment values that straddle 2^20; the operand value lives only at the reference address and decoys sit at the plausible wrong ones, so every load and store is address-exact; plus label operands and byte-register aliasing.",
+    "DESIGN.md section 6 C04")
+CHECKS["C05"] = ("bounded-exhaustive single-step enumeration of all MOV/XCHG/PUSH/POP/singleton forms plus explicit-state breadth-first search over push/pop histories on the product of the real machine and a reference stack",
+    "All data-transfer operand forms x values x SS:SP corner cases compared in full with the reference; all sequences of 12 push/pop events up to depth 4 (quick) / 6 (thorough) from 24 initial stack positions with canonical-state deduplication; source-level push/pop round trips.",
+    "DESIGN.md section 6 C05")
+CHECKS["C06"] = ("exhaustive enumeration of all 2^16 flag words (jumps) and all 2^16 CX values (JCXZ/LOOPx) for all 74 spellings, assembled by the real Preprocessor and executed by the real Interpreter, against the Intel predicate table",
+    "Every jump/loop spelling of syntax.md in both cases, every flag word / CX value: outcome, CX, flags and registers compared with the reference; synonym and complement relations cross-checked on the observed behaviour.",
+    "DESIGN.md section 6 C06")
 NOT_YET = {}
 
 def main():
